@@ -42,6 +42,37 @@ CLAIMED.update({
          "DESIGN.md §4 C10"),
 })
 
+CLAIMED.update({
+ "C11": ("round-trip / metamorphic oracle over generated expression texts (print, re-parse, evaluate in 8 contexts; refactor identity and rename)",
+         "Runtime monitoring: for every generated expression text the real parser accepts, Parse(e).String() must parse, be a fixed point after one round and evaluate like e (types.Equals / both errors) in 8 random contexts; refactor.Template with identity transformations keeps the value; ContextRefRename(a->b.c) keeps the value in the renamed context and touches only the renamed references. Held on the executions observed only.",
+         "Trusts: types.Equals and the evaluator as comparison base; error messages are not compared; lambdas compared by behaviour on probe tuples.",
+         "DESIGN.md §4 C11"),
+ "C12": ("round-trip oracle over generated strings through the real template scanner, lexer and evaluator, with goflow's own literal printer",
+         "Runtime monitoring: body text passes through Template unchanged modulo @@; every generated string written with goflow's literal printer evaluates to itself alone, next to other literals, as function argument and as index key, through Template and through Expression; scanner tokens for body+@(E)+body are exactly [BODY, EXPRESSION, BODY]. Held on the executions observed only.",
+         "Trusts: types.XText.Describe() as 'the' literal printer (the anchors' reading of 'can be written as a quoted, escaped literal'); strings are valid UTF-8 without NUL.",
+         "DESIGN.md §4 C12"),
+ "C13": ("round-trip oracles over generated numbers, instants (24 zones x 12 environment formats), JSON documents, '=' pairs and field values",
+         "Runtime monitoring: ToXNumber(ToXText(n))==n; ISO/JSON and every environment date/time format of datetimes, dates and times parse back to the same value at the rendered precision; json(parse_json(doc)) is JSON-equivalent to doc; '=' agrees with Render equality; field values survive the contact JSON and re-parse to their typed parts. Held on the executions observed only.",
+         "Trusts: encoding/json (UseNumber) and math/big for equivalence; locale left at default; over-long field texts (cut after parsing) are observed, not judged.",
+         "DESIGN.md §4 C13"),
+ "C14": ("round-trip and injection oracles over grammar-derived query texts and programmatic trees, with goflow's own printers and escaping",
+         "Runtime monitoring: every accepted query's String() re-parses to a structurally identical tree (4 configurations: with/without resolver x redaction policy); programmatic trees with hostile values survive Stringify+ParseQuery; a value substituted with ContactQueryEscaping at any position of a multi-condition template becomes exactly one literal. Held on the executions observed only.",
+         "Trusts: the public accessors of contactql nodes for structural comparison; the engine-level observation through start_session/send_broadcast is not built (the escaping function itself is what those actions call).",
+         "DESIGN.md §4 C14"),
+ "C15": ("crash sanitizer + metamorphic oracles (AND/OR compositionality, Simplify, presence, trichotomy, independent calendar-day reference) over generated queries x contacts",
+         "Runtime monitoring: EvaluateQuery never panics; eval(a AND b)==eval(a)&&eval(b) and likewise for OR, n-ary and nested forms evaluated through their own text; Simplify keeps the result; = \"\" / != \"\" test absence/presence; for present number/date values exactly one of <,=,> holds with <=,>=,!= consistent; date results equal an independent calendar-day comparison. Held on the executions observed only.",
+         "Trusts: time.In(tz).Date() as the calendar-day reference; contacts built through flows.ReadContact plus a hand-written Queryable.",
+         "DESIGN.md §4 C15"),
+ "C16": ("translation-validation style oracles over down-converted and seed definitions + fault enumeration over every JSON path of every seed definition",
+         "Runtime monitoring: generated current-version flows down-converted to 13.0..13.5, legacy flows assembled from the repository's library and every definition file in the repository are migrated: output loads, flow/node/exit identities kept, idempotent, current version untouched byte-for-byte, stepwise == one-go, 13.3 template rewrites preserve values, read/marshal/read round trip; every JSON path of the seed definitions x 23 fault kinds and raw bytes: migrate/read return (value or error), never panic. Held on the executions observed only.",
+         "Trusts: definition.ReadFlow as acceptance test; the down-conversion (inverse migrations) in the harness; evidence level stays exploration with fault counters as extra keys.",
+         "DESIGN.md §4 C16"),
+ "C17": ("reference-model oracle: generator-side legacy AST + reference evaluator vs real MigrateTemplate + Evaluator.Template",
+         "Runtime monitoring: legacy templates are generated from the harness's own legacy AST (49 migratable functions at every nesting position under every operator), migrated by the real code, and the migrated template must parse, keep text outside expressions and evaluate to the value a reference evaluator gives the legacy tree on the same operands; mismatches are classified by a parenthesisation repair experiment. Held on the executions observed only.",
+         "Trusts: the reference evaluator's Excel semantics on a deliberately restricted, unambiguous domain (small integers, short ASCII strings, terminating divisions).",
+         "DESIGN.md §4 C17"),
+})
+
 NOT_YET = {}
 
 def main():
